@@ -375,6 +375,14 @@ def _run(case, out, rig, server, cfg, variant, phone):
         nt = True
         out.label("coalesced")
     o = server.take_out()
+    if case.get("corrupt") and case.get("behind"):
+        # the server does not wait for the client's verdict on its reply: further frames follow right behind the reply that will not
+        # authenticate (what they hold cannot matter - no session was established).  The failure is reported all the same
+        import hashlib as _h
+        for k in range(case["behind"]):
+            junk = _h.shake_256(b"behind-%d" % k).digest(24 + 17 * k)
+            o += len(junk).to_bytes(3, "big") + junk
+        out.label("frames_right_behind_the_failing_reply")
     chunks = chunker(o)
     if len(chunks) >= 2:
         nt = True
@@ -600,6 +608,7 @@ def case_strategy():
             "passive": draw(st.booleans()),
             "pushname": draw(st.one_of(st.none(), st.text(min_size=1, max_size=12))),
             "edge": draw(st.one_of(st.none(), st.binary(min_size=1, max_size=40).map(lambda b: b.hex()))),
+            "behind": draw(st.sampled_from([0, 0, 1, 2, 3])),
             "mcc": draw(st.one_of(st.none(), st.text(alphabet="0123456789", min_size=3, max_size=3))),
             "mnc": draw(st.one_of(st.none(), st.text(alphabet="0123456789", min_size=2, max_size=3))),
             "fdid": draw(st.one_of(st.none(), st.uuids().map(str))),
@@ -663,6 +672,9 @@ def _enum_basic():
         for how in DAMAGE:
             yield {"sub": "login", "variant": variant, "phone": "12025550100", "passive": False, "pushname": None, "edge": None,
                    "chunks": [], "coalesced": 0, "after_server": 1, "after_client": 1, "prefix": [], "corrupt": how, "choices": []}
+            yield {"sub": "login", "variant": variant, "phone": "12025550100", "passive": False, "pushname": None, "edge": None,
+                   "chunks": [], "coalesced": 0, "after_server": 1, "after_client": 1, "prefix": [], "corrupt": how, "choices": [],
+                   "behind": 1 + len(str(how)) % 2}
         for size in (2 ** 24 - 16, 2 ** 24):
             yield {"sub": "login", "variant": variant, "phone": "4915112345", "passive": False, "pushname": None, "edge": None, "chunks": [],
                    "coalesced": 0, "after_server": 1, "after_client": 3, "prefix": [], "corrupt": False, "choices": [], "too_large": size}
@@ -750,3 +762,4 @@ def plan(tier):
 
 RULE += (' Also: a server stanza of 5000..200000 bytes delivered in socket-sized reads; handshake-reply damage generated as (field, position, bit pattern), truncation or extension of a field or of the serialised message; after every reported handshake failure a further login must succeed; cut kind closed_at_once (the peer closes the connection the moment it is up, the next login follows at once) with a complete single-preemption sweep; slow_delivery: a stanza that arrived with the handshake reply is still being handled by the layer above (virtual time) while the connection is lost and the next login completes with stanzas queued behind its reply - stanzas are handled one at a time and in order.')
 RULE += (" The client attributes presented include the account's network codes (mcc, mnc) and device id, each set or unset independently.")
+RULE += (" A reply that fails authentication may have further frames right behind it in the same delivery (behind).")
